@@ -135,7 +135,7 @@ CallEv ==
                  msg == IF (ev.ret = 1) # a.ret /\ ~(wrongType /\ op = "ne") THEN Msg(p, op \o " returned " \o ToString(ev.ret) \o ", the reference cursor says " \o (IF a.ret THEN "1" ELSE "0"))
                         ELSE IF wrongType THEN (IF op = "fe" /\ ev.err2 # 7 THEN Msg("C07", "field_ensure on a value of another type must set WRONG_TYPE") ELSE "")
                         ELSE IF ev.err2 # 0 THEN Msg(p, "error raised on a well-formed document by " \o op)
-                        ELSE IF ev.d - d0 # C!ObjFrames(a.c) THEN Msg("C06", "get_depth does not match the number of objects entered")
+                        ELSE IF ev.d - d0 # C!ObjFrames(a.c) THEN Msg(p, "get_depth does not match the number of objects entered")
                         ELSE IF a.ret /\ op \in {"n", "ne", "f", "fe"} THEN HitMsg(ev, a.hit, inObj, p)
                         ELSE IF op \in {"raw", "tw"} /\ a.ret /\ ev.raw # <<C!RawOff(a.hit), C!RawLen(a.hit)>> THEN Msg("C11", "raw span differs from the container's span")
                         ELSE IF op = "tw" /\ ~a.ret /\ (ev.wc # 0 \/ ev.we # 0) THEN Msg("C11", "to_writer on a non-container changed the writer")
